@@ -21,7 +21,8 @@ USER_FUNCS = {"user_func", "check_func", "child_func"}
 
 
 class HandlerHooks(Hooks):
-    def __init__(self, kind, cp_outcomes=("ok", "orphan", "bgerror"), serdes_raises=True, user_raises=True):
+    def __init__(self, kind, cp_outcomes=("ok", "orphan", "bgerror"), serdes_raises=True, user_raises=True, float_delay=False):
+        self.float_delay = float_delay   # the strategy's Duration carries a float (Duration(seconds=0.5): the annotation says int, nothing enforces it)
         self.kind = kind
         self.cp_outcomes = cp_outcomes
         self.serdes_raises = serdes_raises
@@ -121,7 +122,7 @@ class HandlerHooks(Hooks):
             ev_ = st.emit("call", name=n, args=tuple(args), kwargs=dict(kwargs))
             dec_cls = eng.program.cls("retries.RetryDecision" if n.startswith("retry") else "waits.WaitForConditionDecision")
             dur_cls = eng.program.cls("config.Duration")
-            secs = fresh("int", "delay")
+            secs = fresh("real" if self.float_delay else "int", "delay")
             st.assume(secs.t >= 0)  # Duration.__post_init__ rejects negatives
             dur = st.alloc(dur_cls, {"seconds": secs})
             first = "should_retry" if n.startswith("retry") else "should_continue"
